@@ -447,6 +447,8 @@ class Mods:
             for s in blk["stmts"]:
                 if s["k"] in ("assign", "setdiscr"):
                     ps = fn.place_str(s["place"])
+                    if s.get("inlined_arg") and ps == root:
+                        continue  # a spliced helper's self parameter: an alias of self, not a write
                     f = first_field(ps, root)
                     if f:
                         direct.add(f)
@@ -588,6 +590,18 @@ def overlaps(written, read):
     return False
 
 
+def _const_flags(fn):
+    """Names of user bool locals whose every definition assigns a constant."""
+    out = set()
+    for nm, l, pj in fn.var_places:
+        if pj or fn.locals[l]["ty"] != "bool" or l <= fn.arg_count:
+            continue
+        ds = fn.defs(l)
+        if len(ds) >= 2 and all(d[0] == "assign" and d[3]["k"] == "use" and d[3]["op"].get("k") == "const" for d in ds):
+            out.add(nm)
+    return out
+
+
 class Flow:
     """Intraprocedural world-set dataflow for one function."""
 
@@ -595,6 +609,16 @@ class Flow:
         self.prog = prog
         self.mods = mods
         self.fn = fn
+        # boolean flag variables (user locals of type bool assigned only constants) are always
+        # tracked: `let cancelled = match state {A => false, B => true}; ... if cancelled {..}`
+        # keeps the correlation between the arm taken and the later test
+        flags = _const_flags(fn)
+        if flags:
+            base = track
+
+            def track(key, _b=base, _f=flags):
+                return _b(key) or (key[0] == "val" and key[1] in _f)
+
         self.cond = Cond(prog, track)
         self.track = track
         self.eb = ExprBuilder(prog, fn, user_stop=user_stop)
@@ -653,6 +677,9 @@ class Flow:
     def stmt(self, worlds, s):
         if s["k"] == "assign":
             ps = self.fn.place_str(s["place"])
+            if s.get("inlined_arg") and ps == "self":
+                # a spliced helper's `self` parameter bound to the caller's own self: an alias, not a write
+                return worlds
             worlds = self._kill_place(worlds, ps)
             rv = s["rv"]
             if self.gen and self.track(("val", ps)):
